@@ -54,6 +54,7 @@ fn main() {
         "tables" => streams::name::run_tables(&mut out),
         "hosts" => streams::hosts::run(&mut r, n, &mut out),
         "ip" => streams::hosts::run_ip(&mut r, n, &mut out),
+        "config-load" => streams::server::run_config_load(&mut r, n, &mut out),
         other => {
             eprintln!("unknown stream {other}");
             std::process::exit(2);
